@@ -42,6 +42,28 @@ theorem seq_advances (da : Bytes → Option Bytes) (cr : Crypto) (s s' : State) 
     simp only [seqOf, getDoc_set_eq]
     exact nextSeq_of_lt (by simpa [two64, seqOf] using hov)
 
+/-- The same for every sequence a `uint64` can hold: the handlers refuse at the end of the sequence space (F23), so an
+accepted update or deactivation never wraps. -/
+theorem seq_advances_total (da : Bytes → Option Bytes) (cr : Crypto) (s s' : State) (did : Bytes) (doc : Option Doc)
+    (db vmID sig fr : Bytes) (hty : seqOf s did < 2 ^ 64) :
+    (deliver da cr s (.update did doc db vmID sig fr) = .ok s' → seqOf s' did = seqOf s did + 1) ∧
+    (deliver da cr s (.deactivate did vmID sig fr) = .ok s' → seqOf s' did = seqOf s did + 1) := by
+  have key : ∀ n, n < 2 ^ 64 → nextSeq n ≠ 0 → nextSeq n = n + 1 := by
+    intro n hn h
+    unfold nextSeq wrap64 at *
+    have : n + 1 ≠ 18446744073709551616 := by
+      intro he; rw [he] at h; exact h (by decide)
+    omega
+  constructor
+  · intro h
+    obtain ⟨_, _, _, _, _, _, _, _, _, _, hp, rfl⟩ := update_ok h
+    simp only [seqOf, getDoc_set_eq]
+    exact key _ hty hp.noWrap
+  · intro h
+    obtain ⟨_, _, _, _, _, _, hp, rfl⟩ := deactivate_ok h
+    simp only [seqOf, getDoc_set_eq]
+    exact key _ hty hp.noWrap
+
 /-- … and nothing else ever changes it: after any message the sequence of any DID is what it was, or one
 more because that very message was accepted. -/
 theorem seq_changes_only_by_acceptance (da : Bytes → Option Bytes) (cr : Crypto) (s : State) (m : Msg)
